@@ -287,7 +287,7 @@ def run(ctx):
                   "leading/trailing strings over the stated punctuation set are split off the word")
     sb = prog.body(sp)
     sets = common.splitter_sets(prog, sp)
-    lits = sorted({s for s, bb in sets})
+    lits = sorted({"".join(sorted(set(s))) for s, bb in sets})       # as sets: a named predicate over a constant and the constant itself are one set
     if not lits:
         r4.undecidable("set", "no `literal.contains(char)` found in the splitter")
     else:
